@@ -31,6 +31,8 @@ ASSUMPTIONS = [
     "the left-removed whitespace is predicted by the C12 model (vt.ref.ws); right-side removals are part of the end-tag token value",
     "token *types* are not judged, only values, order, completeness and line numbers",
     "soup cases that raise TemplateSyntaxError are counted but not judged (C01 owns totality)",
+    "lstrip_blocks before a tag preceded on its line by whitespace other than spaces/tabs is not judged (configuration skipped, counted)",
+    "environments are reused across cases inside a worker (configuration objects only)",
 ]
 
 CONFIGS = [(t, l, k) for t in (False, True) for l in (False, True) for k in (False, True)]
@@ -69,6 +71,9 @@ def _structured(case, csk, syn_name, ls, lc):
         except ws.Decline:
             raise core.Discard()
         cfg = "trim_blocks=%s lstrip_blocks=%s keep_trailing_newline=%s newline_sequence=%r syntax=%s ls=%r lc=%r" % (trim, lstrip, ktn, nls, syn_name, ls, lc)
+        if a.ambiguous:
+            labels.add("lstrip:ambiguous-ws(config skipped)")
+            continue
         tokens = [tuple(t) for t in get_env(syn_name, ls, lc, trim, lstrip, nls, ktn).lex(src)]
         placed, err = ws.walk_tokens(a.S, a.spans, tokens)
         if placed is None:
@@ -173,7 +178,7 @@ def strategies(syn_name, ls, lc, max_segs=8):
     soup = skel.fragment_soup(syn).map(lambda s: tag({"kind": "soup", "src": s}))
     res = [sk, sk, sk, soup]
     if ls and lc:
-        lines = st.builds(lambda l, f: tag({"kind": "lines", "lsk": l, "form": f}), skel.line_skeletons(blank=True), st.sampled_from(["line", "line", "block"]))
+        lines = st.builds(lambda l, f: tag({"kind": "lines", "lsk": l, "form": f}), skel.line_skeletons(blank=True, vt_indent=True), st.sampled_from(["line", "line", "block"]))
         res += [lines, lines, lines]
     return st.one_of(res)
 
@@ -183,7 +188,7 @@ def shards(tier):
 
 
 def run_shard(spec, ctx):
-    return core.hyp_shard(strategies(spec["syn"], spec["ls"], spec["lc"], ctx.pick(8, 10)), check_case, ctx, ctx.pick(5000, 80000))
+    return skel.hyp_chunks(strategies(spec["syn"], spec["ls"], spec["lc"], ctx.pick(8, 10)), check_case, ctx, ctx.pick(5000, 80000), core.Rec(), "lex", chunk=5000)
 
 
 def floors(total, tier):
